@@ -21,7 +21,8 @@ EXPLANATION = (
     'method dispatch, pairing of values and labels at _build_rdms, accumulation in calc_rdm_movie and the 1/n_channel '
     'scale factor. It does NOT decide that the floating-point values equal the formulas, nor order/dtype invariance: '
     'a tree can pass this check and still compute a wrong number.'
-    ' Also: (PLACE) every value from_partials writes into the merged vectors passes through the label->position map; (MEAN-FIRST) no non-linear map is applied before the per-condition averaging; sweeps over the scope for loop-carried state (LOOP-CARRY), 0/1 membership products that spread NaN (MASK-WEIGHT), half-filled look-up matrices (HALF-FILLED), tolerance comparisons used as selections (TOL), lost stores and condensed-index order.')
+    ' Also: (PLACE) every value from_partials writes into the merged vectors passes through the label->position map; (MEAN-FIRST) no non-linear map is applied before the per-condition averaging; sweeps over the scope for loop-carried state (LOOP-CARRY), 0/1 membership products that spread NaN (MASK-WEIGHT), half-filled look-up matrices (HALF-FILLED), tolerance comparisons used as selections (TOL), lost stores and condensed-index order.'
+    ' Round 6: (FLOAT-IN) the patterns handed to the estimators are floating point on every path of _parse_input; PLACE also rejects membership-mask placement.')
 ASSUMPTIONS = [
     'dependence is over-approximated: only "no dependence path" verdicts are used to raise violations',
     'external (numpy) calls: result depends on all arguments',
